@@ -100,5 +100,25 @@ def concrete_instances(fx, cf):
     """instances whose captures mention no bare type parameter of the enclosing function; falls back to the closure's own
     capture list when it is not generic"""
     gen = set((fx.fn(cf.get("root", cf["def"])) or {}).get("generics") or [])
+    if cf.get("_adt"):
+        # a generic named submit object (`struct SinkTx<S>(S)`): one instance per type it is erased from, its field types
+        # with the parameters replaced by the arguments of that instantiation
+        a = fx.adts.get(cf["_adt"]) or {}
+        aty = a.get("ty") or ""
+        params = _split_top(aty[aty.index("<") + 1:aty.rindex(">")]) if "<" in aty else []
+        inst = []
+        for _key, ent in fx.dyn.items():
+            for s in ent["sources"]:
+                if s.get("kind") == "adt" and s.get("def") == cf["_adt"] and "<" in (s.get("full") or s.get("ty") or ""):
+                    full = s.get("full") or s["ty"]
+                    args = _split_top(full[full.index("<") + 1:full.rindex(">")])
+                    fields = list(cf.get("upvars", []))
+                    names = params if params else sorted({f_ for f_ in fields if f_ in gen} | {f_ for f_ in fields if len(f_) <= 2 and f_.isupper()})
+                    m = {n: args[i] for i, n in enumerate(names) if i < len(args)}
+                    caps = [m.get(f_, f_) for f_ in fields]
+                    if caps not in inst and not any(c in gen for c in caps):
+                        inst.append(caps)
+        if inst:
+            return inst
     inst = [caps for caps in closure_instances(fx, cf["def"]) if not any(c in gen for c in caps)]
     return inst or [list(cf.get("upvars", []))]
